@@ -71,6 +71,10 @@ type sub05 struct {
 	// pEnc / sEnc: "element" = the prefix / the subscription paths use the
 	// deprecated string-list encoding of path elements instead of PathElem
 	pEnc, sEnc string
+	// between: the writer runs to completion BETWEEN the first sync and the
+	// poll trigger (the stream is held open across it); the polled round must
+	// then be exactly what the cache holds afterwards
+	between bool
 }
 
 func (s sub05) String() string {
@@ -80,6 +84,9 @@ func (s sub05) String() string {
 	}
 	if len(s.writer) > 0 {
 		pt += " || W(t1)=" + scriptName(s.writer)
+	}
+	if s.between {
+		pt += " (the writer runs between the first sync and the poll)"
 	}
 	if s.abandoned {
 		pt += " after an earlier client of the same paths went away mid-call"
@@ -228,6 +235,14 @@ func configs05(tier string) []xplore.Config {
 			add(sub05{target: "*", paths: []string{p}, mode: pb.SubscriptionList_POLL, polls: 1, writer: sc}, wb-1)
 		}
 	}
+	// a POLL stream held open while its target is removed, added again and
+	// refilled (the writer runs to completion between the first sync and the
+	// poll): the polled round answers from the target as it is NOW
+	for _, sc := range [][]wop{{{"remove", ""}, {"add", ""}, {"upd", "a/b"}}, {{"remove", ""}, {"add", ""}, {"upd", "a/z"}}, {{"reset", ""}, {"upd", "a/z"}}, {{"del", "a"}, {"upd", "a/z"}}} {
+		for _, p := range []string{"a", "*"} {
+			add(sub05{target: "t1", paths: []string{p}, mode: pb.SubscriptionList_POLL, polls: 1, writer: sc, between: true}, wb-1)
+		}
+	}
 	return out
 }
 
@@ -287,10 +302,16 @@ func run05(cfg xplore.Config, ch vrt.Chooser, trace bool) (xplore.Outcome, *vrt.
 				vrt.Recv(idleC)
 			}
 		}
+		firstSync := make(chan struct{})
+		writerDone := make(chan struct{})
 		if s.mode == pb.SubscriptionList_POLL {
 			vrt.GoNamed("client", func() {
 				for i := 0; i < s.polls; i++ {
 					vrt.Recv(syncC)
+					if s.between && i == 0 {
+						vrt.Close(firstSync)
+						vrt.Recv(writerDone)
+					}
 					pause()
 					vrt.Send(st.pollC, struct{}{})
 				}
@@ -302,10 +323,16 @@ func run05(cfg xplore.Config, ch vrt.Chooser, trace bool) (xplore.Outcome, *vrt.
 		wdone := len(s.writer) == 0
 		if len(s.writer) > 0 {
 			vrt.GoNamed("writer", func() {
+				if s.between {
+					vrt.Recv(firstSync)
+				}
 				for _, o := range s.writer {
 					w.apply("t1", o)
 				}
 				wdone = true
+				if s.between {
+					vrt.Close(writerDone)
+				}
 			})
 		}
 		for {
@@ -370,6 +397,24 @@ func run05(cfg xplore.Config, ch vrt.Chooser, trace bool) (xplore.Outcome, *vrt.
 				got[k] = valOf(n)
 			}
 			start = st.syncSeen[r] + 1
+			if s.between {
+				if r == 0 {
+					continue // taken before the writer started: covered by the writer-less configurations
+				}
+				now := map[string]string{}
+				for _, p := range s.paths {
+					for k, v := range w.expected(subSpec{target: s.target, origin: s.pOrigin, paths: []string{p}}) {
+						if strings.HasPrefix(v, "atomic{m=") { // rendered here by its first member, as in got
+							v = v[len("atomic{m="):strings.Index(v, ",")]
+						}
+						now[k] = v
+					}
+				}
+				if renderMap(got) != renderMap(now) {
+					viol(&out, "poll-not-current", "%s: the poll issued after the writer had finished returned\n  %s\nthe target holds\n  %s", s, renderMap(got), renderMap(now))
+				}
+				continue
+			}
 			if len(s.writer) == 0 {
 				wm := map[string]string{}
 				for k, v := range want {
